@@ -2,7 +2,8 @@ import Anysystem.Proofs.R4Defs
 import Anysystem.Proofs.SimStepThms
 import Anysystem.Proofs.DetLemmas
 /-!
-# Helper lemmas for `R4.lean` (the simulator step refines the reference semantics, rates zero)
+# Helper lemmas for `R4.lean` (the simulator step refines the reference semantics; duplication and corruption rates
+zero, drop rate arbitrary)
 
 Sections, in dependency order:
 * `R4Lemmas`  — lists, `live` / `deliverable`, what `nextEvent` leaves alone;
@@ -13,7 +14,7 @@ Sections, in dependency order:
 * `R4Prims`   — the relation follows the primitive state changes (`updVisible`, `addMsg`, `cancelTimer`, `setTimer`);
 * `R4Eqns`    — equations for one timer call of `handle_process_actions`;
 * `R4Acts`    — `send_local`, `set_timer`, `set_timer_once`, `cancel_timer` on both sides;
-* `R4Send`    — `send` with all rates zero on both sides;
+* `R4Send`    — `send` on both sides (a send the simulator drops at random leaves a zombie flight in the reference state);
 * `R4Run`     — a whole action list (`acts_sim`), inversion of `step` / `onTimer`, the oldest identical flight;
 * `R4Pop`     — popping the next event (`pop_frame`, `pop_undeliverable`, `r4_pop_msg`);
 * `R4PopTimer`— `popped_timer_unblocked`, `r4_pop_timer`;
@@ -324,8 +325,8 @@ theorem NetRel.congr {bits : T → Nat} {q q' : Sim σ T} {r r' : RState σ} (hn
     (hrc : r'.crashedNodes = r.crashedNodes) (h : NetRel bits q r) : NetRel bits q' r' := by
   obtain ⟨_, e5, e1, e2, e3, _, _, _, e4⟩ := SimNet.core_eq hnet
   refine ⟨?_, ?_, ?_, ?_, ?_, ?_, ?_, ?_, hn.2 h.nodesSorted⟩
-  · rw [e1, e2, e3]; exact h.ratesZero
-  · rw [hrn]; exact h.netFlags
+  · rw [e2, e3]; exact h.ratesZero
+  · rw [hrn, e1]; exact h.netFlags
   · rw [hrn, e4]; exact h.netLoc
   · intro a b ha hb
     rw [hrn, pathCut_congr hnet, hh]
@@ -383,8 +384,8 @@ theorem TimerRel.congr {bits : T → Nat} {q q' : Sim σ T} {r r' : RState σ} {
 
 theorem FlightRel.congr {q q' : Sim σ T} {r r' : RState σ} (he : q'.events = q.events)
     (hcan : q'.canceled = q.canceled) (hh : q'.handlers = q.handlers)
-    (hf : r'.flights = r.flights) (h : FlightRel q r) : FlightRel q' r' :=
-  ⟨by rw [hf, deliverable_congr he hcan hh]; exact h.perm, by rw [hf]; exact h.inert⟩
+    (hf : r'.flights = r.flights) (hn : r'.net = r.net) (h : FlightRel q r) : FlightRel q' r' :=
+  ⟨by unfold liveKeys; rw [hf, hn, deliverable_congr he hcan hh]; exact h.perm, by rw [hf]; exact h.inert⟩
 
 theorem TimedRel.sameView {bits : T → Nat} {q q' : Sim σ T} {r : RState σ} {gs : List (TimerGhost T)}
     (hv : SameView q q') (h : TimedRel bits q r gs) : TimedRel bits q' r gs :=
@@ -392,7 +393,7 @@ theorem TimedRel.sameView {bits : T → Nat} {q q' : Sim σ T} {r : RState σ} {
    h.proc.congr (SimNet.core_procLoc hv.net) (fun n p => pvo_of_pv (hv.procs n p)) rfl,
    h.queue.congr hv.clock hv.events hv.canceled hv.eventCount hv.net,
    h.timer.congr hv.clock hv.events hv.canceled hv.handlers (fun n p => pvp_of_pv (hv.procs n p)) rfl,
-   h.flights.congr hv.events hv.canceled hv.handlers rfl⟩
+   h.flights.congr hv.events hv.canceled hv.handlers rfl rfl⟩
 
 /-- the relation does not look at the trace of the reference state -/
 theorem TimedRel.congr_r {bits : T → Nat} {q : Sim σ T} {r r' : RState σ} {gs : List (TimerGhost T)}
@@ -402,7 +403,7 @@ theorem TimedRel.congr_r {bits : T → Nat} {q : Sim σ T} {r r' : RState σ} {g
    h.proc.congr rfl (fun _ _ => rfl) h1,
    h.queue,
    h.timer.congr rfl rfl rfl rfl (fun _ _ => rfl) h4,
-   h.flights.congr rfl rfl rfl h3⟩
+   h.flights.congr rfl rfl rfl h3 h5⟩
 
 end R4View
 
@@ -507,28 +508,58 @@ open Sim
 
 theorem FlightRel.addEv {s s' : Sim σ T} {r r' : RState σ} {ev : QEv T} (h : FlightRel s r)
     (hl : s'.live = s.live ++ [ev]) (hh : s'.handlers = s.handlers) (fs : List Flight)
-    (hf : r'.flights = r.flights ++ fs)
+    (hf : r'.flights = r.flights ++ fs) (hn : r'.net = r.net)
     (hkey : fs.map Flight.key = if s.handlers.contains ev.dst then (keyOfQ ev.data).toList else [])
-    (hin : ∀ f ∈ fs, f.o.noFault = true) :
+    (hin : ∀ f ∈ fs, f.o.dropOnly = true) :
     FlightRel s' r' := by
   refine ⟨?_, ?_⟩
-  · rw [deliverable_of_live_append hl hh, hf, List.map_append, List.filterMap_append, hkey]
-    refine h.perm.append ?_
-    split
-    · cases hfo : keyOfQ ev.data <;> simp [List.filterMap_cons, hfo]
-    · simp
+  · obtain ⟨zs, hp, hz⟩ := h.perm
+    refine ⟨zs, ?_, by rw [hn]; exact hz⟩
+    unfold liveKeys at hp ⊢
+    rw [deliverable_of_live_append hl hh, hf, List.map_append, List.filterMap_append, hkey]
+    have hadd : (if s.handlers.contains ev.dst = true then (keyOfQ ev.data).toList else []) =
+        (if s.handlers.contains ev.dst = true then [ev] else []).filterMap (fun e => keyOfQ e.data) := by
+      split
+      · cases hfo : keyOfQ ev.data <;> simp [List.filterMap_cons, hfo]
+      · simp
+    rw [hadd]
+    -- (A ++ B) ~ (L ++ zs) ++ B ~ (L ++ B) ++ zs
+    refine (hp.append_right _).trans ?_
+    rw [List.append_assoc, List.append_assoc]
+    exact List.Perm.append_left _ List.perm_append_comm
   · intro f hfm
     rw [hf] at hfm
     rcases List.mem_append.1 hfm with hfm | hfm
     · exact h.inert f hfm
     · exact hin f hfm
 
+/-- the reference state puts a message in flight that the simulator has dropped at random at send time: a zombie -/
+theorem FlightRel.addZombie {s s' : Sim σ T} {r r' : RState σ} (h : FlightRel s r)
+    (hl : s'.live = s.live) (hh : s'.handlers = s.handlers) (f : Flight)
+    (hf : r'.flights = r.flights ++ [f]) (hn : r'.net = r.net) (hdp : r.net.dropPos = true)
+    (hin : f.o.dropOnly = true) : FlightRel s' r' := by
+  refine ⟨?_, ?_⟩
+  · obtain ⟨zs, hp, hz⟩ := h.perm
+    refine ⟨zs ++ [f.key], ?_, ?_⟩
+    · have hd : s'.deliverable = s.deliverable := by unfold deliverable; rw [hl, hh]
+      unfold liveKeys at hp ⊢
+      rw [hd, hf, List.map_append, ← List.append_assoc]
+      exact hp.append_right _
+    · intro hfalse; rw [hn, hdp] at hfalse; cases hfalse
+  · intro g hg
+    rw [hf] at hg
+    rcases List.mem_append.1 hg with hg | hg
+    · exact h.inert g hg
+    · simp only [List.mem_singleton] at hg; subst hg; exact hin
+
 theorem FlightRel.filterNone {s s' : Sim σ T} {r r' : RState σ} {P : QEv T → Bool} (h : FlightRel s r)
     (hl : s'.live = s.live.filter P) (hh : s'.handlers = s.handlers) (hf : r'.flights = r.flights)
+    (hn : r'.net = r.net)
     (hP : ∀ x ∈ s.deliverable, P x = false → ∀ mid m src sn dst dn, x.data ≠ .msg mid m src sn dst dn) :
     FlightRel s' r' := by
   refine ⟨?_, by rw [hf]; exact h.inert⟩
-  rw [deliverable_of_live_filter hl hh, hf, filterMap_filter_none]
+  unfold liveKeys
+  rw [deliverable_of_live_filter hl hh, hf, hn, filterMap_filter_none]
   · exact h.perm
   · intro x hx hpx
     cases hd : x.data with
@@ -541,16 +572,36 @@ theorem FlightRel.popMsg {s s' : Sim σ T} {r r' : RState σ} {e : QEv T} {k : M
     (h : FlightRel s r)
     (hwf : s.QueueWF) (hl : s'.live = s.live.filter (fun x => x.id != e.id)) (hh : s'.handlers = s.handlers)
     (he : e ∈ s.deliverable) (hke : keyOfQ e.data = some k) (hf : r'.flights = r.flights.eraseIdx i)
+    (hn : r'.net = r.net)
     (hi : ((r.flights.eraseIdx i).map Flight.key).Perm ((r.flights.map Flight.key).erase k)) :
     FlightRel s' r' := by
   refine ⟨?_, ?_⟩
-  · rw [deliverable_of_live_filter hl hh, hf]
-    refine hi.trans ((h.perm.erase k).trans ?_)
-    exact (perm_filterMap_erase (·.id) (fun e => keyOfQ e.data) s.deliverable
-      (ids_nodup_deliverable s hwf) e he k hke).symm
+  · obtain ⟨zs, hp, hz⟩ := h.perm
+    refine ⟨zs, ?_, by rw [hn]; exact hz⟩
+    unfold liveKeys at hp ⊢
+    rw [deliverable_of_live_filter hl hh, hf]
+    have hmem : k ∈ s.deliverable.filterMap (fun e => keyOfQ e.data) := List.mem_filterMap.2 ⟨e, he, hke⟩
+    refine hi.trans ((hp.erase k).trans ?_)
+    rw [List.erase_append_left _ hmem]
+    exact ((perm_filterMap_erase (·.id) (fun e => keyOfQ e.data) s.deliverable
+      (ids_nodup_deliverable s hwf) e he k hke).symm).append_right _
   · intro f hfm
     rw [hf] at hfm
     exact h.inert f (List.mem_of_mem_eraseIdx hfm)
+
+/-- some flight of the reference state carries the triple of a deliverable queued copy -/
+theorem FlightRel.key_mem {s : Sim σ T} {r : RState σ} (h : FlightRel s r) {e : QEv T} {k : Msg × Nat × Nat}
+    (he : e ∈ s.deliverable) (hke : keyOfQ e.data = some k) : k ∈ r.flights.map Flight.key := by
+  obtain ⟨zs, hp, _⟩ := h.perm
+  rw [hp.mem_iff]
+  exact List.mem_append_left _ (List.mem_filterMap.2 ⟨e, he, hke⟩)
+
+/-- when the reference network cannot drop there are no zombies: the flights are exactly the deliverable copies -/
+theorem FlightRel.perm_of_noDrop {s : Sim σ T} {r : RState σ} (h : FlightRel s r) (hd : r.net.dropPos = false) :
+    (r.flights.map Flight.key).Perm s.liveKeys := by
+  obtain ⟨zs, hp, hz⟩ := h.perm
+  rw [hz hd, List.append_nil] at hp
+  exact hp
 
 /-! ## `QueueOk` -/
 
@@ -1070,7 +1121,7 @@ theorem TimedRel.updVisible {bits : T → Nat} {s : Sim σ T} {r : RState σ} {g
    h.proc.upd n p f g hfg he,
    h.queue.congr (by simp) (by simp) (by simp) (by simp) (by simp),
    TimerRel.congr (r := r) (by simp) (by simp) (by simp) (handlers_updProc s n p f) (pvp_updProc s n p f hpend) rfl h.timer,
-   FlightRel.congr (r := r) (by simp) (by simp) (handlers_updProc s n p f) rfl h.flights⟩
+   FlightRel.congr (r := r) (by simp) (by simp) (handlers_updProc s n p f) rfl rfl h.flights⟩
 
 /-- a message copy is queued -/
 theorem TimedRel.addMsg [LawfulTime T] {bits : T → Nat} {s s' : Sim σ T} {r r' : RState σ}
@@ -1083,7 +1134,7 @@ theorem TimedRel.addMsg [LawfulTime T] {bits : T → Nat} {s s' : Sim σ T} {r r
     (htime : TimeOps.le s.clock ev.time = true)
     (hld : amGet? dst s.net.procLoc = some dn) (hls : amGet? src s.net.procLoc = some sn)
     (h1 : r'.procs = r.procs) (h2 : r'.crashedNodes = r.crashedNodes) (h4 : r'.timers = r.timers)
-    (h5 : r'.net = r.net) (ho : o.noFault = true)
+    (h5 : r'.net = r.net) (ho : o.dropOnly = true)
     (h3 : r'.flights = if dn ∈ s.handlers then r.flights ++ [⟨m, src, dst, o⟩] else r.flights) :
     TimedRel bits s' r' gs := by
   have hfresh : ev.id ∉ s.canceled := fun hin => Nat.lt_irrefl _ (hid ▸ h.queue.cancWF _ hin)
@@ -1103,7 +1154,7 @@ theorem TimedRel.addMsg [LawfulTime T] {bits : T → Nat} {s s' : Sim σ T} {r r
       · exact hx
       · subst hx; rw [hdata] at hd; cases hd
     · exact Or.inl
-  · refine h.flights.addEv hl hh (if dn ∈ s.handlers then [⟨m, src, dst, o⟩] else []) ?_ ?_ ?_
+  · refine h.flights.addEv hl hh (if dn ∈ s.handlers then [⟨m, src, dst, o⟩] else []) ?_ h5 ?_ ?_
     · rw [h3]; split <;> simp
     · rw [hdst]
       by_cases hdn : dn ∈ s.handlers
@@ -1113,6 +1164,18 @@ theorem TimedRel.addMsg [LawfulTime T] {bits : T → Nat} {s s' : Sim σ T} {r r
       split at hf
       · simp only [List.mem_singleton] at hf; subst hf; exact ho
       · cases hf
+
+/-- the reference state puts a message in flight that the simulator has dropped at random when it was sent -/
+theorem TimedRel.addZombie {bits : T → Nat} {s : Sim σ T} {r r' : RState σ} {gs : List (TimerGhost T)}
+    (h : TimedRel bits s r gs) (f : Flight)
+    (h1 : r'.procs = r.procs) (h2 : r'.crashedNodes = r.crashedNodes) (h4 : r'.timers = r.timers)
+    (h5 : r'.net = r.net) (h3 : r'.flights = r.flights ++ [f]) (hdp : r.net.dropPos = true)
+    (ho : f.o.dropOnly = true) : TimedRel bits s r' gs :=
+  ⟨h.net.congr rfl rfl (NodesLike.refl _) h5 h2,
+   h.proc.congr rfl (fun _ _ => rfl) h1,
+   h.queue,
+   h.timer.congr rfl rfl rfl rfl (fun _ _ => rfl) h4,
+   h.flights.addZombie rfl rfl f h3 h5 hdp ho⟩
 
 /-- `timerPending` of the reference state = the name is in the timer map of the process entry -/
 theorem TimedRel.timerPending_iff {bits : T → Nat} {s : Sim σ T} {r : RState σ} {gs : List (TimerGhost T)}
@@ -1191,7 +1254,7 @@ theorem TimedRel.cancelTimer [LawfulTime T] {bits : T → Nat} {s s' : Sim σ T}
     · show r.timers.filter _ = _
       rw [h.timer.timers, List.filter_map]
       rfl
-  · refine h.flights.filterNone hl hh rfl ?_
+  · refine h.flights.filterNone hl hh rfl rfl ?_
     intro x hx hpx mid m src sn dst dn hd
     simp only [bne_eq_false_iff_eq] at hpx
     have : x = ec := live_eq_of_id s h.queue.queueWF ((mem_deliverable s x).1 hx).1 hec hpx
@@ -1222,7 +1285,7 @@ theorem TimedRel.setTimer [LawfulTime T] {bits : T → Nat} {s s' : Sim σ T} {r
     (fun mid' m' src' sn' dst' dn' hd => by cases hd)
   refine ⟨h.net.congr hnet hh hnodes h5 h2, h.proc.congr hloc hpo h1, hq', ?_, ?_⟩
   · exact h.timer.addTimer h.queue h.proc hl hh hc rfl rfl rfl rfl hn he hnone hpp hbits h4
-  · exact h.flights.addEv hl hh [] (by rw [h3]; simp) (by simp [keyOfQ]) (by intro f hf; cases hf)
+  · exact h.flights.addEv hl hh [] (by rw [h3]; simp) h5 (by simp [keyOfQ]) (by intro f hf; cases hf)
 
 end R4Prims
 
@@ -1580,13 +1643,27 @@ open Sim
 variable [LawfulTime T] {bits : T → Nat} {s s' : Sim σ T} {r : RState σ} {gs : List (TimerGhost T)}
   {n p : Nat} {time : T} {rest : List Action}
 
+/-- a draw below a rate: the rate is positive -/
+theorem lt_zero_of_le_of_lt (x rate : T) (h0 : TimeOps.le TimeOps.zero x = true) (h : TimeOps.lt x rate = true) :
+    TimeOps.lt TimeOps.zero rate = true := by
+  cases hlt : TimeOps.lt TimeOps.zero rate with
+  | true => rfl
+  | false =>
+    exfalso
+    have h1 : TimeOps.le rate TimeOps.zero = true := by
+      cases hle : TimeOps.le rate TimeOps.zero with
+      | true => rfl
+      | false => rw [(LawfulTime.lt_iff _ _).2 hle] at hlt; cases hlt
+    have h2 := LawfulTime.le_trans _ _ _ h1 h0
+    rw [(LawfulTime.lt_iff _ _).1 h] at h2; cases h2
+
 theorem send_sim (h : TimedRel bits s r gs) (hctx : r.Ctx n p) (m : Msg) (dst tl : Nat)
     (hdraws : ∀ d ∈ s.draws, LawfulTime.isDraw d) (hlen : 4 ≤ s.draws.length)
     (hknown : (amGet? dst r.net.procLoc).isSome = true)
     (hok : s.sendMessage m p dst tl = .ok s') :
     (∃ k, k ≤ 4 ∧ s'.draws = s.draws.drop k) ∧ TimedRel bits s' (r.act p (.send m dst)).1 gs := by
   obtain ⟨hn, e, he⟩ := h.ctx hctx
-  obtain ⟨hz1, hz2, hz3⟩ := h.net.ratesZero
+  obtain ⟨hz2, hz3⟩ := h.net.ratesZero
   obtain ⟨hf1, hf2, hf3⟩ := h.net.netFlags
   have hpl : amGet? p s.net.procLoc = some n := (h.proc.procs n p e he).2
   cases hdl : amGet? dst r.net.procLoc with
@@ -1631,8 +1708,29 @@ theorem send_sim (h : TimedRel bits s r gs) (hctx : r.Ctx n p) (m : Msg) (dst tl
       rw [b3, hpe, hcut]
       simp [hnd]
     | false =>
+      cases hrd : TimeOps.lt (dr s.draws 0) s.net.dropRate with
+      | true =>
+        -- dropped at random at send time: the simulator queues nothing, the reference flight is a zombie
+        have hdr : s.sendDropped n dn = true := by rw [sendDropped_eq, hrd]; rfl
+        rw [cross_dropped _ _ _ _ _ _ _ hdr]
+        refine ⟨⟨1, by omega, rfl⟩, ?_⟩
+        have hsv := TimedRel.sameView (q := s)
+          (q' := { s with draws := s.draws.drop 1, net := s.crossNet m tl,
+                          trace := s.trace ++ [.sent s.clock s.net.messageCount n p dn dst m,
+                                               .dropped s.clock s.net.messageCount n p dn dst m] })
+          ⟨rfl, rfl, rfl, rfl, rfl, rfl, NodesLike.refl _, fun _ _ => rfl⟩ h
+        have hdp : r.net.dropPos = true := by
+          rw [hf1]; exact lt_zero_of_le_of_lt _ _ (dr_nonneg _ hdraws 0) hrd
+        by_cases hdn : dn ∈ s.handlers
+        · refine hsv.addZombie ⟨m, p, dst, .faults r.net.dropPos 0 false⟩ b1 b2 b4 b5 ?_ hdp rfl
+          rw [b3, hpe, hcut, hcr]
+          simp [hdn, hnd, hf2, hf3]
+        · refine TimedRel.congr_r b1 b2 ?_ b4 b5 hsv
+          rw [b3, hpe, hcut, hcr]
+          simp [hdn, hnd]
+      | false =>
       have hdr : s.sendDropped n dn = false := by
-        rw [sendDropped_eq, hcut, hz1, dr_lt_zero _ hdraws]; rfl
+        rw [sendDropped_eq, hcut, hrd]; rfl
       have hcnt : s.sendCount = 1 := sendCount_dupl_zero s hdraws hz2
       have hbase : s.sendBase = 3 := by simp [sendBase, sendDup, hz2, dr_lt_zero _ hdraws]
       have hpay : s.sendPayload m = m := by simp [sendPayload, hz3, dr_lt_zero _ hdraws]
@@ -1641,12 +1739,12 @@ theorem send_sim (h : TimedRel bits s r gs) (hctx : r.Ctx n p) (m : Msg) (dst tl
       have hdrw : LawfulTime.isDraw (dr s.draws (3 + 0)) := hdraws _ (dr_mem _ _ (by omega))
       have hb := LawfulTime.scale_bounds s.net.minDelay s.net.maxDelay _ h.queue.delaysOk.2 hdrw
       refine h.addMsg (ev := copyEv s (.msg s.net.messageCount m p n dst dn) n dn 3 0)
-        (o := .faults false 0 false)
+        (o := .faults r.net.dropPos 0 false)
         (by simp [List.range_succ]) rfl rfl rfl rfl rfl (NodesLike.refl _) (fun _ _ => rfl) (by simp [copyEv]) rfl rfl
         (LawfulTime.le_add _ _ (LawfulTime.le_trans _ _ _ h.queue.delaysOk.1 hb.1)) hdl' hpl b1 b2 b4 b5 rfl ?_
       rw [b3, hpe, hcut, hcr]
       by_cases hdn : dn ∈ s.handlers
-      · simp [copyEv, hdn, hnd, hf1, hf2, hf3]
+      · simp [copyEv, hdn, hnd, hf2, hf3]
       · simp [copyEv, hdn, hnd]
 
 theorem act_sim_send (h : TimedRel bits s r gs) (hctx : r.Ctx n p) (m : Msg) (dst : Nat)
@@ -1864,7 +1962,7 @@ theorem pop_undeliverable (h : TimedRel bits q r gs) (hf : q.events.length < fue
       have := live_eq_of_id q h.queue.queueWF hm f5 hid
       subst this
       exact hdst (h.timer.timerLive h.queue.queueWF hm hd)
-  · refine h.flights.filterNone f6 f7 rfl ?_
+  · refine h.flights.filterNone f6 f7 rfl rfl ?_
     intro x hx hpx
     simp only [bne_eq_false_iff_eq] at hpx
     have := live_eq_of_id q h.queue.queueWF ((mem_deliverable q x).1 hx).1 f5 hpx
@@ -1896,7 +1994,7 @@ theorem r4_pop_msg (h : TimedRel bits q r gs) (hf : q.events.length < fuel)
       subst this
       rw [hd] at hdx; cases hdx
   · exact h.flights.popMsg h.queue.queueWF f6 f7 ((mem_deliverable q e).2 ⟨f5, hdst⟩)
-      (by rw [hd]; rfl) h3 hi
+      (by rw [hd]; rfl) h3 h5 hi
 
 end R4Pop
 
@@ -2052,7 +2150,7 @@ theorem r4_pop_timer (h : TimedRel bits q r gs) (hf : q.events.length < fuel)
         · exact Or.inr hm
     · rw [h4, h.timer.timers, hgs]
       simp [List.eraseIdx_append_of_length_le]
-  · refine h.flights.filterNone hl hh h3 ?_
+  · refine h.flights.filterNone hl hh h3 h5 ?_
     intro y hy hpy mid m src sn dst dn hdy
     simp only [bne_eq_false_iff_eq] at hpy
     have := live_eq_of_id q h.queue.queueWF ((mem_deliverable q y).1 hy).1 f5 hpy
